@@ -104,7 +104,8 @@ def with_flaky(rng, pcode: str, p: float) -> str:
 def gen_repeat_method(rng) -> tuple[str, list]:
     """Methods in which command nodes are invoked repeatedly through the real interpreter: a macro with commands
     called 2-4 times, an Alarm whose body (with commands) fires again and again; first schedule entries arm the alarm."""
-    cmd = lambda: rng.choice(["CmdA", "CmdA", "CmdB", "CmdC", "FlakyC", "CmdNum: 5", "Wait: 0.25s", "Pause: 0.25s"])  # noqa: E731
+    cmd = lambda: rng.choice(["CmdA", "CmdA", "CmdB", "CmdC", "CmdLong", "CmdLong", "FlakyC", "CmdNum: 5", "Wait: 0.25s",
+                              "Pause: 0.25s"])  # noqa: E731   (CmdLong runs 15 ticks: outlasts an Alarm cycle / a macro call)
     lines: list[str] = []
     pre: list = []
     kind = rng.choice(["macro", "alarm", "both"])
